@@ -143,6 +143,7 @@ func (f *flusher) abort(key string) {
 
 func (f *flusher) worker() {
 	for {
+		verifPoint("idle", "")
 		select {
 		case <-f.stop:
 			return
@@ -177,6 +178,7 @@ func (f *flusher) nextToFlush() (b *blob, ok bool) {
 func (f *flusher) flush(b *blob) {
 	key := b.key
 	defer func() {
+		verifPoint("unban", key)
 		err := f.mem.UnbanEviction(key) // prevent leak
 		if err != nil {
 			f.log.With(
@@ -301,6 +303,7 @@ func (f *flusher) flushData(b *blob) error {
 		return fmt.Errorf("disk store create: %w", err)
 	}
 	defer closers.Close(diskF)
+	verifPoint("created", key)
 	f.mu.Lock()
 	_, ok := f.blobs[b.key]
 	if !ok {
